@@ -250,6 +250,36 @@ def fp_oracle():
     return exe if p.returncode == 0 and os.path.exists(exe) else None
 
 
+def fx_cases(tier, rng):
+    """fx_parts <start bits> <sweep bits>: PlaneSector::new of the fixed_point build on I16F16 angle BIT PATTERNS against
+    the exact integer model coq/Model/Trigfixed.v (the model the C18_trigfixed_* theorems are about): every whole and
+    half degree in +-1440 deg with its +-3 bit neighbours, the rounding boundaries of `degree`, the operation
+    thresholds (PI, TAU bits +-1), random bit patterns."""
+    import math
+    out = []
+    step = 1 if tier != 'quick' else 5
+    off = int(os.environ.get('VERIF_SEED', '1')) % step
+    for h in range(-2880 + off, 2881, step):
+        b = round(h / 2 * math.pi / 180 * 65536)
+        for d in range(-3, 4):
+            out.append(J('fx_parts', b + d, 0))
+    for k in range(-1440, 1441, 3 if tier != 'quick' else 29):
+        b = round((k + 0.5) * 205887 / 180)
+        for d in range(-4, 5):
+            out.append(J('fx_parts', b + d, rng.choice([0, 0, 51472, -205000])))
+    for _ in range(12000 if tier == 'quick' else 300000):
+        a = rng.randrange(-1647100, 1647101)
+        k = rng.random()
+        if k < 0.6:
+            w = rng.randrange(-420000, 420001)
+        elif k < 0.8:
+            w = rng.choice([0, 205886, 205887, 205888, 411774, 411775, 411776, 102943, 102944, 102945]) * rng.choice([1, -1])
+        else:
+            w = rng.randrange(-3000, 3001)
+        out.append(J('fx_parts', a, w))
+    return out
+
+
 def fixed_point_search(tier, rng):
     exe = fp_oracle()
     if exe is None:
@@ -287,6 +317,7 @@ def fixed_point_search(tier, rng):
         cl.append(J('arc_mask', x, y, d, a, s, ps))
         cl.append(J('sec_styled', x, y, d, a, s, ps, *nn[5:8], *st))
         cl.append(J('arc_styled', x, y, d, a, s, ps, *st))
+    cl += fx_cases(tier, rng)
     impl = run_lines(exe, cl)
     model = run_lines(os.path.join(V, '.build', 'ocaml', 'model_oracle'), cl)
     B = 500
